@@ -8,9 +8,9 @@
    logical program is compiled in 14-17 packagings x {segment-codegen off, on} and every relation is compared with
    the specification oracle of the logical program.
 
-   Two findings are part of the faithful model (known_findings.json, property C09):
-   - include_source_drops_prefix_when_spans_coincide: c09_include_equal_spans_refuted; the full statement is
-     c09_include_is_splice guarded by the decidable class known_c09_spans;
+   include_source_drops_prefix_when_spans_coincide was repaired in /repo (commit 9a74b6c: positional split); the model
+   follows the repaired code, c09_include_is_splice is unguarded, and c09_old_span_split_refuted records the old behaviour.
+   One finding remains part of the faithful model (known_findings.json, property C09):
    - include_source_hides_captured_locals: c09_include_hygiene_refuted (compile-time rejection, never a wrong result). *)
 From Coq Require Import List ZArith Bool.
 From AV Require Import Engine.Core.
@@ -84,22 +84,23 @@ Theorem c09_timing_flags_inert : forall (I : interp) swap (now : nat -> Z) (meas
 Proof. exact timing_flags_inert. Qed.
 
 (* ---- include_source! ---- *)
-(* for every token list with any number of includes at any positions and every assignment of sources (which cannot contain
-   includes): outside the known class — an include keyword whose printed span also occurs on a token before it — the
-   chain of re-invocations ends after one step per include on exactly the text with every source pasted in place *)
+(* for every token list — whatever spans its tokens print — with any number of includes at any positions and every
+   assignment of sources (which cannot contain includes): the chain of re-invocations ends after one step per include
+   on exactly the text with every source pasted in place *)
 Theorem c09_include_is_splice : forall (srcs : nat -> list tok) (ts : list tok) (fuel : nat),
   (forall p, no_inc (srcs p) = true) ->
-  known_c09_spans srcs ts = false ->
   (count_includes ts < fuel)%nat ->
   expand fuel srcs ts = Some (paste srcs ts).
 Proof. exact include_is_splice. Qed.
 
-(* the unguarded statement is false for the faithful model: when all tokens print the same span, everything before the
-   include is dropped (finding include_source_drops_prefix_when_spans_coincide, replayed on the real macro by the tie) *)
-Theorem c09_include_equal_spans_refuted :
-  exists srcs ts r, (forall p, no_inc (srcs p) = true) /\ known_c09_spans srcs ts = true
-                    /\ expand 5 srcs ts = Some r /\ r <> paste srcs ts /\ r = srcs O ++ [tk 0 (TOther 3)].
-Proof. exact include_refuted_equal_spans. Qed.
+(* about the OLD span-based split only (before /repo commit 9a74b6c, known_findings.json entry
+   include_source_drops_prefix_when_spans_coincide, status fixed): with all tokens printing one span everything before
+   the include was dropped; the current positional split yields the pasted text on that input *)
+Theorem c09_old_span_split_refuted :
+  exists srcs ts r, (forall p, no_inc (srcs p) = true)
+                    /\ expand_old 5 srcs ts = Some r /\ r <> paste srcs ts /\ r = srcs O ++ [tk 0 (TOther 3)]
+                    /\ expand 5 srcs ts = Some (paste srcs ts).
+Proof. exact include_old_split_refuted_equal_spans. Qed.
 
 (* name resolution: a source that mentions no captured local is transparent; one that does is not (macro_rules hygiene):
    the pasted text resolves, the included one is rejected by rustc (finding include_source_hides_captured_locals) *)
@@ -107,7 +108,7 @@ Theorem c09_include_hygiene_ok : forall srcs ts,
   (forall p, no_local (srcs p) = true) -> locals_resolve ts = true -> locals_resolve (paste srcs ts) = true.
 Proof. exact include_hygiene_ok. Qed.
 Theorem c09_include_hygiene_refuted :
-  exists srcs ts r, (forall p, no_inc (srcs p) = true) /\ known_c09_spans srcs ts = false
+  exists srcs ts r, (forall p, no_inc (srcs p) = true)
                     /\ locals_resolve (map at_call_site (paste srcs ts)) = true
                     /\ expand 5 srcs ts = Some r /\ locals_resolve r = false.
 Proof. exact include_hygiene_refuted. Qed.
@@ -134,6 +135,6 @@ Print Assumptions c09_redecl_last_wins. Print Assumptions c09_dedup_keeps_last.
 Print Assumptions c09_init_is_input. Print Assumptions c09_ascent_run_equals_struct_run. Print Assumptions c09_ascent_run_least_model.
 Print Assumptions c09_run_is_timeout_max. Print Assumptions c09_run_via_timeout_is_run.
 Print Assumptions c09_timing_flags_inert.
-Print Assumptions c09_include_is_splice. Print Assumptions c09_include_equal_spans_refuted.
+Print Assumptions c09_include_is_splice. Print Assumptions c09_old_span_split_refuted.
 Print Assumptions c09_include_hygiene_ok. Print Assumptions c09_include_hygiene_refuted.
 Print Assumptions c09_example_dedup_vectors. Print Assumptions c09_example_timeout_fires. Print Assumptions c09_example_ascent_run_tc.
